@@ -1,193 +1,241 @@
 """C08 (Layer A part) — raise sites of the real compilers that ARE reachable inside the compiler's supported kind
-(class (c) of notes/C08_la.md).  Self-contained; run with
+(class (c) of notes/C08_la.md), as deterministic PROBE problems.  harness/ext/c08_la.py imports the builders below and
+runs them on every `./check C08` (open findings C08-cer-forall-condition, C08-grounder-static-zero-divisor,
+C08-grounder-parameter-zero-divisor, C08-ncr-negated-boolean-parameter).  Stand-alone:
     PYTHONPATH=/repo PYTHONHASHSEED=0 /venv/bin/python /verif/corpus/c08_la_compile_raises.py
-Every block prints `supports(problem.kind)` and what compile() did."""
-import warnings, traceback
+prints, for every probe / control / regression case, `supports(problem.kind)` and what compile() did.
+
+PROBES       cases that raise today (each one an open finding; `shape` is the narrow tag of its signature)
+CONTROLS     neighbouring problems that compile (they show how narrow the failing shape is)
+REGRESSIONS  cases that raised before a fix and must NOT raise (e644736: Grounder metric environment)
+"""
+import traceback
+import warnings
+
 warnings.filterwarnings("ignore")
-import unified_planning as up
-from unified_planning.shortcuts import *
-from unified_planning.engines import CompilationKind as CK
-from unified_planning.engines.compilers import (Grounder, ConditionalEffectsRemover, DisjunctiveConditionsRemover,
-    NegativeConditionsRemover, QuantifiersRemover, BoundedTypesRemover, StateInvariantsRemover)
-up.shortcuts.get_environment().credits_stream = None
 
-def run(label, compiler, problem, ck):
-    sup = compiler.supports(problem.kind)
-    print(f"--- {label}: {type(compiler).__name__}.supports(problem.kind) = {sup}")
-    if not sup:
-        print("    unsupported features:", [f for f in problem.kind.features if f not in compiler.supported_kind().features])
-    try:
-        r = compiler.compile(problem, ck)
-        print("    OK; actions:", [a.name for a in r.problem.actions])
-        return r
-    except BaseException as ex:
-        tb = traceback.extract_tb(ex.__traceback__)
-        where = [f"{f.filename.split('unified_planning/')[-1]}:{f.lineno}" for f in tb if 'unified_planning' in f.filename][-4:]
-        print(f"    RAISED {type(ex).__name__}: {ex}")
-        print("    at", " <- ".join(reversed(where)))
-        return None
 
-# ===================== cer_forall_cond
-# ConditionalEffectsRemover: a forall effect whose condition mentions the quantified variable
-L = UserType("L")
-dirty = Fluent("dirty", BoolType(), l=L)
-clean = Fluent("clean", BoolType(), l=L)
-p = Problem("p")
-p.add_fluent(dirty, default_initial_value=True)
-p.add_fluent(clean, default_initial_value=False)
-p.add_objects([Object("l1", L), Object("l2", L)])
-a = InstantaneousAction("sweep")
-v = Variable("v", L)
-a.add_effect(clean(v), True, condition=dirty(v), forall=[v])
-p.add_action(a)
-p.add_goal(clean(p.object("l1")))
-run("forall v. if dirty(v) then clean(v) := true", ConditionalEffectsRemover(), p, CK.CONDITIONAL_EFFECTS_REMOVING)
-# control: forall effect, condition without the variable
-p2 = Problem("p2")
-flag = Fluent("flag")
-p2.add_fluent(flag, default_initial_value=True)
-p2.add_fluent(clean, default_initial_value=False)
-p2.add_objects([Object("l1", L), Object("l2", L)])
-b = InstantaneousAction("sweep")
-b.add_effect(clean(v), True, condition=flag, forall=[v])
-p2.add_action(b)
-p2.add_goal(clean(p2.object("l1")))
-run("forall v. if flag then clean(v) := true", ConditionalEffectsRemover(), p2, CK.CONDITIONAL_EFFECTS_REMOVING)
+def _api():
+    import unified_planning as up
+    import unified_planning.shortcuts as sh
+    up.shortcuts.get_environment().credits_stream = None
+    return sh
 
-# ===================== g_static_div0
-# Grounder: static numeric fluent with value 0 for one object, used as divisor; the instance is guarded by speed(r) > 0
-R = UserType("R")
-speed = Fluent("speed", IntType(), r=R)
-t = Fluent("t", RealType())
-p = Problem("p")
-p.add_fluent(speed, default_initial_value=1)
-p.add_fluent(t, default_initial_value=0)
-r1, r2 = Object("r1", R), Object("r2", R)
-p.add_objects([r1, r2])
-p.set_initial_value(speed(r2), 0)
-a = InstantaneousAction("go", r=R)
-a.add_precondition(GT(speed(a.r), 0))
-a.add_increase_effect(t, Div(10, speed(a.r)))
-p.add_action(a)
-p.add_goal(GE(t, 10))
-run("static divisor 0 (effect value)", Grounder(), p, CK.GROUNDING)
 
-# same, divisor only in a precondition
-p2 = Problem("p2")
-p2.add_fluent(speed, default_initial_value=1)
-p2.add_fluent(t, default_initial_value=0)
-p2.add_objects([r1, r2])
-p2.set_initial_value(speed(r2), 0)
-b = InstantaneousAction("go", r=R)
-b.add_precondition(And(GT(speed(b.r), 0), LE(Div(10, speed(b.r)), 20)))
-b.add_effect(t, 1)
-p2.add_action(b)
-p2.add_goal(GE(t, 1))
-run("static divisor 0 (precondition)", Grounder(), p2, CK.GROUNDING)
-
-# ===================== g_param_div0
-# Grounder: bounded int action parameter used as divisor, 0 in range, guarded by k > 0
-t = Fluent("t", RealType())
-p = Problem("p")
-p.add_fluent(t, default_initial_value=0)
-a = InstantaneousAction("go", k=IntType(0, 2))
-try:
-    a.add_precondition(GT(a.k, 0))
-    a.add_increase_effect(t, Div(10, a.k))
+# ---------------------------------------------------------------------------------------------- builders
+def cer_forall_condition():
+    """ConditionalEffectsRemover: forall v. if dirty(v) then clean(v) := true — the condition of a conditional forall
+    effect mentions the quantified variable; the compiler adds the condition as a PRECONDITION of the variants
+    (conditional_effects_remover.py: add_precondition(e.condition) / add_precondition(Not(e.condition)))."""
+    s = _api()
+    L = s.UserType("L")
+    dirty = s.Fluent("dirty", s.BoolType(), l=L)
+    clean = s.Fluent("clean", s.BoolType(), l=L)
+    p = s.Problem("cer_forall_condition")
+    p.add_fluent(dirty, default_initial_value=True)
+    p.add_fluent(clean, default_initial_value=False)
+    p.add_objects([s.Object("l1", L), s.Object("l2", L)])
+    a = s.InstantaneousAction("sweep")
+    v = s.Variable("v", L)
+    a.add_effect(clean(v), True, condition=dirty(v), forall=[v])
     p.add_action(a)
-    p.add_goal(GE(t, 10))
-    run("bounded int parameter divisor", Grounder(), p, CK.GROUNDING)
-except BaseException as ex:
-    print("construction raised", type(ex).__name__, ex)
-# with a real-typed dividend
-p = Problem("p")
-p.add_fluent(t, default_initial_value=0)
-a = InstantaneousAction("go", k=IntType(0, 2))
-try:
-    a.add_precondition(GT(a.k, 0))
-    a.add_increase_effect(t, Div(t, a.k))
+    p.add_goal(clean(p.object("l1")))
+    return p
+
+
+def cer_forall_condition_control():
+    """the same with a condition that does not mention the variable: compiles"""
+    s = _api()
+    L = s.UserType("L")
+    flag = s.Fluent("flag")
+    clean = s.Fluent("clean", s.BoolType(), l=L)
+    p = s.Problem("cer_forall_condition_control")
+    p.add_fluent(flag, default_initial_value=True)
+    p.add_fluent(clean, default_initial_value=False)
+    p.add_objects([s.Object("l1", L), s.Object("l2", L)])
+    a = s.InstantaneousAction("sweep")
+    v = s.Variable("v", L)
+    a.add_effect(clean(v), True, condition=flag, forall=[v])
     p.add_action(a)
-    p.add_goal(GE(t, 10))
-    run("bounded int parameter divisor, fluent dividend", Grounder(), p, CK.GROUNDING)
-except BaseException as ex:
-    print("construction raised", type(ex).__name__, ex)
+    p.add_goal(clean(p.object("l1")))
+    return p
 
-# ===================== g_costs_env
-from unified_planning.environment import Environment
-from unified_planning.model import Fluent, InstantaneousAction, Object, Problem, MinimizeActionCosts
-# Grounder: MinimizeActionCosts in a problem that lives in a non-global Environment
-env = Environment()
-tm, em = env.type_manager, env.expression_manager
-L = tm.UserType("L")
-at = Fluent("at", tm.BoolType(), None, env, l=L)
-p = Problem("p", env)
-p.add_fluent(at, default_initial_value=False)
-p.add_objects([Object("l1", L, env), Object("l2", L, env)])
-a = InstantaneousAction("go", _env=env, l=L)
-a.add_effect(at(a.l), True)
-p.add_action(a)
-p.add_goal(at(p.object("l2")))
-p.add_quality_metric(MinimizeActionCosts({a: em.Int(3)}, environment=env))
-run("action costs, non-global environment", Grounder(), p, CK.GROUNDING)
-for C, ck in [(QuantifiersRemover, CK.QUANTIFIERS_REMOVING), (ConditionalEffectsRemover, CK.CONDITIONAL_EFFECTS_REMOVING),
-              (NegativeConditionsRemover, CK.NEGATIVE_CONDITIONS_REMOVING), (DisjunctiveConditionsRemover, CK.DISJUNCTIVE_CONDITIONS_REMOVING),
-              (BoundedTypesRemover, CK.BOUNDED_TYPES_REMOVING), (StateInvariantsRemover, CK.STATE_INVARIANTS_REMOVING)]:
-    run("same problem", C(), p, ck)
 
-# ===================== ncr_not_atoms
-# NegativeConditionsRemover: negations over atoms other than fluents / (in)equalities
-L = UserType("L")
-f = Fluent("f")
-g = Fluent("g", BoolType(), l=L)
-def base():
-    p = Problem("p")
+def _speed_problem(name):
+    s = _api()
+    R = s.UserType("R")
+    speed = s.Fluent("speed", s.IntType(), r=R)
+    t = s.Fluent("t", s.RealType())
+    p = s.Problem(name)
+    p.add_fluent(speed, default_initial_value=1)
+    p.add_fluent(t, default_initial_value=0)
+    r1, r2 = s.Object("r1", R), s.Object("r2", R)
+    p.add_objects([r1, r2])
+    p.set_initial_value(speed(r2), 0)
+    return s, p, R, speed, t
+
+
+def grounder_static_zero_divisor_effect():
+    """Grounder: speed is static, speed(r2) = 0; go(r): pre speed(r) > 0, t += 10 / speed(r).  The instance go(r2) is
+    inapplicable (its precondition is false) but its EFFECT is built first: Simplifier(env, problem) folds speed(r2) to 0
+    and walk_div raises."""
+    s, p, R, speed, t = _speed_problem("grounder_static_zero_divisor_effect")
+    a = s.InstantaneousAction("go", r=R)
+    a.add_precondition(s.GT(speed(a.r), 0))
+    a.add_increase_effect(t, s.Div(10, speed(a.r)))
+    p.add_action(a)
+    p.add_goal(s.GE(t, 10))
+    return p
+
+
+def grounder_static_zero_divisor_precondition():
+    """the same with the division inside the precondition itself: speed(r) > 0 and 10 / speed(r) <= 20"""
+    s, p, R, speed, t = _speed_problem("grounder_static_zero_divisor_precondition")
+    b = s.InstantaneousAction("go", r=R)
+    b.add_precondition(s.And(s.GT(speed(b.r), 0), s.LE(s.Div(10, speed(b.r)), 20)))
+    b.add_effect(t, 1)
+    p.add_action(b)
+    p.add_goal(s.GE(t, 1))
+    return p
+
+
+def grounder_parameter_zero_divisor():
+    """Grounder: go(k : int[0, 2]): pre k > 0, t += 10 / k.  Substituting k := 0 rebuilds Div(10, 0): the type checker
+    raises ZeroDivisionError although the instance is excluded by the precondition."""
+    s = _api()
+    t = s.Fluent("t", s.RealType())
+    p = s.Problem("grounder_parameter_zero_divisor")
+    p.add_fluent(t, default_initial_value=0)
+    a = s.InstantaneousAction("go", k=s.IntType(0, 2))
+    a.add_precondition(s.GT(a.k, 0))
+    a.add_increase_effect(t, s.Div(10, a.k))
+    p.add_action(a)
+    p.add_goal(s.GE(t, 10))
+    return p
+
+
+def grounder_parameter_divisor_control():
+    """t / k instead of 10 / k: Div(t, 0) is constructible, go_0 is pruned by 0 > 0: compiles to go_1, go_2"""
+    s = _api()
+    t = s.Fluent("t", s.RealType())
+    p = s.Problem("grounder_parameter_divisor_control")
+    p.add_fluent(t, default_initial_value=0)
+    a = s.InstantaneousAction("go", k=s.IntType(0, 2))
+    a.add_precondition(s.GT(a.k, 0))
+    a.add_increase_effect(t, s.Div(t, a.k))
+    p.add_action(a)
+    p.add_goal(s.GE(t, 10))
+    return p
+
+
+def ncr_negated_boolean_parameter():
+    """NegativeConditionsRemover: a(b : bool): pre not b.  BOOL_ACTION_PARAMETERS is in the supported kind, but
+    NegativeFluentRemover.walk_not has no case for a parameter."""
+    s = _api()
+    f = s.Fluent("f")
+    p = s.Problem("ncr_negated_boolean_parameter")
     p.add_fluent(f, default_initial_value=False)
-    p.add_fluent(g, default_initial_value=False)
-    p.add_objects([Object("l1", L), Object("l2", L)])
+    a = s.InstantaneousAction("a", b=s.BoolType())
+    a.add_precondition(s.Not(a.b))
+    a.add_effect(f, True)
+    p.add_action(a)
     p.add_goal(f)
     return p
-# 1. not <Boolean action parameter>
-p = base()
-a = InstantaneousAction("a", b=BoolType())
-a.add_precondition(Not(a.b))
-a.add_effect(f, True)
-p.add_action(a)
-run("not b (Boolean action parameter)", NegativeConditionsRemover(), p, CK.NEGATIVE_CONDITIONS_REMOVING)
-# 2. not (b1 == b2)?  Equals over booleans
-p = base()
-a = InstantaneousAction("a", b=BoolType())
-try:
-    a.add_precondition(Not(Equals(a.b, f)))
-    a.add_effect(f, True); p.add_action(a)
-    run("not (b == f) booleans", NegativeConditionsRemover(), p, CK.NEGATIVE_CONDITIONS_REMOVING)
-except BaseException as ex:
-    print("--- not (b == f): construction raised", type(ex).__name__, ex)
-# 3. known: not Exists
-p = base()
-a = InstantaneousAction("a")
-v = Variable("v", L)
-a.add_precondition(Not(Exists(g(v), v)))
-a.add_effect(f, True); p.add_action(a)
-run("not Exists v. g(v)  [known C08-ncr-negated-quantifier]", NegativeConditionsRemover(), p, CK.NEGATIVE_CONDITIONS_REMOVING)
-# 4. not (x == y) over a user type without objects -> documented
-M = UserType("M")
-h = Fluent("h", M)
-p = base(); p.add_fluent(h)
-a = InstantaneousAction("a", m=M)
-a.add_precondition(Not(Equals(h, a.m)))
-a.add_effect(f, True); p.add_action(a)
-run("not (h == m), type M has no objects [documented]", NegativeConditionsRemover(), p, CK.NEGATIVE_CONDITIONS_REMOVING)
-# 5. Iff of two fluents, implies
-p = base()
-a = InstantaneousAction("a", l=L)
-a.add_precondition(Iff(f, g(a.l)))
-a.add_precondition(Implies(g(a.l), f))
-a.add_effect(f, True); p.add_action(a)
-run("iff / implies over fluents", NegativeConditionsRemover(), p, CK.NEGATIVE_CONDITIONS_REMOVING)
-# 6. not over a Boolean fluent with Boolean fluent parameter args nested
-k = Fluent("k", BoolType(), b=BoolType())
-p = base(); p.add_fluent(k, default_initial_value=False)
-a = InstantaneousAction("a")
-a.add_precondition(Not(k(f)))
-a.add_effect(f, True); p.add_action(a)
-run("not k(f) (nested fluent arg)", NegativeConditionsRemover(), p, CK.NEGATIVE_CONDITIONS_REMOVING)
+
+
+def ncr_boolean_parameter_control():
+    """the parameter read positively: compiles"""
+    s = _api()
+    f = s.Fluent("f")
+    p = s.Problem("ncr_boolean_parameter_control")
+    p.add_fluent(f, default_initial_value=False)
+    a = s.InstantaneousAction("a", b=s.BoolType())
+    a.add_precondition(a.b)
+    a.add_precondition(s.Not(f))
+    a.add_effect(f, True)
+    p.add_action(a)
+    p.add_goal(f)
+    return p
+
+
+def grounder_costs_environment():
+    """REGRESSION (fixed by e644736): MinimizeActionCosts of a problem that lives in a non-global Environment"""
+    _api()
+    from unified_planning.environment import Environment
+    from unified_planning.model import Fluent, InstantaneousAction, Object, Problem, MinimizeActionCosts
+    env = Environment()
+    tm, em = env.type_manager, env.expression_manager
+    L = tm.UserType("L")
+    at = Fluent("at", tm.BoolType(), None, env, l=L)
+    p = Problem("grounder_costs_environment", env)
+    p.add_fluent(at, default_initial_value=False)
+    p.add_objects([Object("l1", L, env), Object("l2", L, env)])
+    a = InstantaneousAction("go", _env=env, l=L)
+    a.add_effect(at(a.l), True)
+    p.add_action(a)
+    p.add_goal(at(p.object("l2")))
+    p.add_quality_metric(MinimizeActionCosts({a: em.Int(3)}, environment=env))
+    return p
+
+
+def _compilers():
+    from unified_planning.engines.compilers import Grounder, ConditionalEffectsRemover, NegativeConditionsRemover
+    return {"grounder": Grounder, "conditional-effects-remover": ConditionalEffectsRemover,
+            "negative-conditions-remover": NegativeConditionsRemover}
+
+
+# (finding id, compiler id (compcheck spec id), builder, narrow shape tag, expected exception type)
+PROBES = [
+    ("C08-cer-forall-condition", "conditional-effects-remover", cer_forall_condition,
+     "forall-effect-condition-mentions-variable", "UPUnboundedVariablesError"),
+    ("C08-grounder-static-zero-divisor", "grounder", grounder_static_zero_divisor_effect,
+     "static-zero-divisor", "ZeroDivisionError"),
+    ("C08-grounder-static-zero-divisor", "grounder", grounder_static_zero_divisor_precondition,
+     "static-zero-divisor", "ZeroDivisionError"),
+    ("C08-grounder-parameter-zero-divisor", "grounder", grounder_parameter_zero_divisor,
+     "parameter-divisor-guarded-by-precondition", "ZeroDivisionError"),
+    ("C08-ncr-negated-boolean-parameter", "negative-conditions-remover", ncr_negated_boolean_parameter,
+     "negated-boolean-parameter", "UPExpressionDefinitionError"),
+]
+CONTROLS = [
+    ("conditional-effects-remover", cer_forall_condition_control),
+    ("grounder", grounder_parameter_divisor_control),
+    ("negative-conditions-remover", ncr_boolean_parameter_control),
+]
+REGRESSIONS = [
+    ("e644736", "grounder", grounder_costs_environment),
+]
+
+
+def attempt(compiler_id, problem):
+    """(supported, result or None, exception or None)"""
+    comp = _compilers()[compiler_id]()
+    sup = comp.supports(problem.kind)
+    try:
+        return sup, comp.compile(problem), None
+    except Exception as ex:  # noqa
+        return sup, None, ex
+
+
+def _show(label, compiler_id, problem):
+    sup, res, ex = attempt(compiler_id, problem)
+    print("--- %s: %s.supports(problem.kind) = %s" % (label, compiler_id, sup))
+    if ex is None:
+        print("    OK; actions:", [a.name for a in res.problem.actions])
+    else:
+        tb = traceback.extract_tb(ex.__traceback__)
+        where = ["%s:%d" % (f.filename.split("unified_planning/")[-1], f.lineno) for f in tb if "unified_planning" in f.filename][-4:]
+        print("    RAISED %s: %s" % (type(ex).__name__, " ".join(str(ex).split())[:200]))
+        print("    at", " <- ".join(reversed(where)))
+
+
+if __name__ == "__main__":
+    print("== probes (open findings: each must raise today)")
+    for fid, cid, build, shape, exc in PROBES:
+        _show("%s [%s] %s" % (fid, shape, build.__name__), cid, build())
+    print("== controls (must compile)")
+    for cid, build in CONTROLS:
+        _show(build.__name__, cid, build())
+    print("== regressions (fixed: must compile)")
+    for commit, cid, build in REGRESSIONS:
+        _show("%s %s" % (commit, build.__name__), cid, build())
